@@ -881,8 +881,14 @@ func splitInlineBox(context *layoutContext, box_ Box, positionX, maxX, bottomSpa
 		lastChild := index == len(box.Children)-1
 		availableWidth := maxX
 		var childWaitingFloats []Box
+		// lineChildren only holds the direct children of the line box: when this inline box
+		// has already put content on the line, its next child does not start the line
+		childLineChildren := lineChildren
+		if !bo.LineT.IsInstance(box_) && len(lineChildren) == 0 && positionX > initialPositionX {
+			childLineChildren = []indexedBox{{index: -1}}
+		}
 		v := splitInlineLevel(context, child_, positionX, availableWidth, bottomSpace, skipStack,
-			containingBlock, absoluteBoxes, fixedBoxes, linePlaceholders, &childWaitingFloats, lineChildren)
+			containingBlock, absoluteBoxes, fixedBoxes, linePlaceholders, &childWaitingFloats, childLineChildren)
 		resumeAt = v.resumeAt
 		newChild, preserved, first, last, newFloatWidths := v.newBox, v.preservedLineBreak, v.firstLetter, v.lastLetter, v.floatWidths
 
@@ -901,7 +907,7 @@ func splitInlineBox(context *layoutContext, box_ Box, positionX, maxX, bottomSpa
 			availableWidth -= endSpacing
 
 			v := splitInlineLevel(context, child_, positionX, availableWidth, bottomSpace, skipStack,
-				containingBlock, absoluteBoxes, fixedBoxes, linePlaceholders, &childWaitingFloats, lineChildren)
+				containingBlock, absoluteBoxes, fixedBoxes, linePlaceholders, &childWaitingFloats, childLineChildren)
 			newChild, resumeAt, preserved, first, last, newFloatWidths = v.newBox, v.resumeAt, v.preservedLineBreak, v.firstLetter, v.lastLetter, v.floatWidths
 		}
 
@@ -1187,7 +1193,7 @@ func inlineOutOfFlowLayout(context *layoutContext, box Box, containingBlock Box,
 				maxX -= dx
 			}
 			for _, oldChild := range lineChildren {
-				if !oldChild.box.Box().IsInNormalFlow() {
+				if oldChild.box == nil || !oldChild.box.Box().IsInNormalFlow() {
 					continue
 				}
 				if (child.Style.GetFloat() == "left" && box.Box().Style.GetDirection() == "ltr") ||
